@@ -166,6 +166,10 @@ impl C17 {
         if same_base {
             rep.count("gen.same_base_name_layout", 1);
         }
+        let dotted = !same_base && r.chance(1, 4);
+        if dotted {
+            rep.count("gen.dot_file_layout", 1);
+        }
         // some or all parameter files are reached through symbolic links (a mounted config
         // map, a stow / nix tree): `params/..` holds the link, `store/..` the content
         let linked = r.below(6);
@@ -177,7 +181,9 @@ impl C17 {
             // an empty parameter file would be rejected as "empty" — keep at least `{}`
             // layouts: distinct names in one directory, or the same base name in
             // different sub-directories (common/params.json, prod/params.json)
-            let rel = if same_base { format!("params/s{}/params.json", p) } else { format!("params/p{}.{}", p, fmt.ext()) };
+            // (a third layout: names that start with a dot - `.env.yaml`, `.hidden/params.json` - are
+            // files like any other)
+            let rel = if same_base { format!("params/s{}/params.json", p) } else if dotted && p == nparams { format!("params/.p{}.{}", p, fmt.ext()) } else if dotted && p == 1 && nparams > 1 { format!("params/.hidden/q{}.{}", p, fmt.ext()) } else { format!("params/p{}.{}", p, fmt.ext()) };
             let fmt = if same_base { DocFmt::JsonPretty } else { fmt };
             if linked == 0 || (linked == 1 && p == nparams) {
                 let store = format!("store/{}", rel.trim_start_matches("params/"));
